@@ -238,8 +238,9 @@ class Tokenizer(object):
         Get the next character in the stream and its category code
 
         This function handles automatically converts characters like
-        ^^M, ^^@, etc. into the correct character.  It also bypasses
-        ignored and invalid characters.
+        ^^M, ^^@, etc. into the correct character.  Ignored and invalid
+        characters are returned as well (with their category code) so
+        that they still end a control word; the token loop skips them.
 
         If you are iterating through the characters in a TeX instance
         and you go too far, you can put the character back with
@@ -252,8 +253,6 @@ class Tokenizer(object):
 
         whichCode = self.context.whichCode
         CC_SUPER = Token.CC_SUPER
-        CC_IGNORED = Token.CC_IGNORED
-        CC_INVALID = Token.CC_INVALID
 
         def _read1():
             if mybuffer:
@@ -291,10 +290,6 @@ class Tokenizer(object):
                         else:
                             token = chr(num+64)
                         code = whichCode(token)
-
-            # Just go to the next character if you see one of these...
-            if code in (CC_IGNORED, CC_INVALID):
-                continue
 
             yield (code, token)
 
@@ -364,6 +359,8 @@ class Tokenizer(object):
         CC_EOL = Token.CC_EOL
         CC_COMMENT = Token.CC_COMMENT
         CC_ACTIVE = Token.CC_ACTIVE
+        CC_IGNORED = Token.CC_IGNORED
+        CC_INVALID = Token.CC_INVALID
         prev = None
 
         while 1:
@@ -478,6 +475,10 @@ class Tokenizer(object):
                 token = EscapeSequence('active::%s' % char)
                 token = context.get_let(token)
                 self.state = STATE_M
+
+            # Just go to the next character if you see one of these...
+            elif code == CC_IGNORED or code == CC_INVALID:
+                continue
 
             else:
                 token = tokenClasses[code](char)
